@@ -314,3 +314,56 @@ def rule_retry(ctx: Ctx) -> List[Ob]:
                   f"no break/return={nobreak}, success flag untouched={nosucc}",
                   construct="retry branch of the failed search"))
     return obs
+
+
+@rule("ACCEPT", min_instances=1)
+def rule_accept(ctx: Ctx) -> List[Ob]:
+    """the iterate moves only by the accepted step: inside the main loop every redefinition of x is
+    (a projection of) x + s*d where s is the value returned by the line search of this iteration
+    (not redefined in between) and d the direction that was handed to it"""
+    from .lsearch import _step_of_point
+    mm = mainmodel(ctx)
+    step, ifs, failed, accepted = _failed_branch(mm)
+    ls = ctx.repo.func("linesearch.line_search")
+    dname = None
+    ls_node = None
+    for n in mm.cfg.nodes:
+        for c in node_calls(n):
+            if (dotted(c.func) or "").split(".")[-1] == "line_search":
+                b = bind_args(c, ls.node)
+                dname = src(b.get("d")) if b.get("d") is not None else None
+                ls_node = n
+                okx = src(b.get("x0")) == mm.x
+    need(dname is not None and ls_node is not None, "ACCEPT: line_search call / direction argument not found")
+    obs: List[Ob] = []
+    k = 0
+    for n in mm.cfg.nodes:
+        if not mm.cfg.in_loop(n, mm.loop):
+            continue
+        for key, v, how in node_defs(n):
+            if key != mm.x:
+                continue
+            k += 1
+            ok, why = False, ""
+            if how == "bind" and v is not None:
+                s = _step_of_point(v, mm.x, dname)
+                ok = s == step
+                why = f"{mm.x} <- {short(v)}: step variable `{s}`" + ("" if ok else f", expected x + {step} * {dname} (projected)")
+            elif how == "aug" and isinstance(n.ast, ast.AugAssign) and isinstance(n.ast.op, ast.Add):
+                e = n.ast.value
+                ok = isinstance(e, ast.BinOp) and isinstance(e.op, ast.Mult) and {src(e.left), src(e.right)} == {step, dname}
+                why = f"{short(n.ast)}" + ("" if ok else f": not `+= {step} * {dname}`")
+            else:
+                why = f"{short(n.ast)}: the iterate is redefined by something else than the accepted step"
+            if ok:
+                # the step and the direction are those of this iteration's line search
+                sd = mm.rd.defs_at(n, step)
+                dd_ls, dd_here = mm.rd.defs_at(ls_node, dname), mm.rd.defs_at(n, dname)
+                if sd != frozenset([ls_node]):
+                    ok, why = False, why + f"; `{step}` is redefined between the line search and the update"
+                elif dd_ls != dd_here:
+                    ok, why = False, why + f"; `{dname}` is redefined between the line search and the update"
+            obs.append(ob("ACCEPT", "the iterate moves exactly by the accepted step", mm.f, n.ast, ok,
+                          why + ("" if ok else ": the point that becomes the iterate is not the one the line search accepted as strictly downhill")))
+    need(k >= 1, "ACCEPT: no update of the iterate inside the main loop")
+    return obs
